@@ -81,7 +81,6 @@ fn style_of(s: MStyle) -> Style {
 struct Driver {
     h: ClientTaskHarness,
     model: ClientModel,
-    partial_rest: Option<Vec<u8>>,
     /// results of command calls made through handles (Ok / Err(Shutdown)), most recent last
     cmd_results: std::sync::Arc<std::sync::Mutex<Vec<bool>>>,
     seen_ids: Vec<usize>,
@@ -119,7 +118,6 @@ pub fn run_path(cfg: &SmCfg, events: &[Ev]) -> PathResult {
     let mut d = Driver {
         h: ClientTaskHarness::new(&tcfg),
         model: ClientModel::new(cfg.cap, cfg.max_timeouts, cfg.retry_min, cfg.retry_max, cfg.handles),
-        partial_rest: None,
         cmd_results: Default::default(),
         seen_ids: vec![],
     };
@@ -133,18 +131,16 @@ pub fn run_path(cfg: &SmCfg, events: &[Ev]) -> PathResult {
         return PathResult { problems, model: d.model, obs: obs_log };
     }
     for (i, ev) in events.iter().enumerate() {
-        if d.model.rxbuf.is_empty() {
-            d.partial_rest = None;
-        }
+        obs_log.push("--step--".to_string());
         let before_now = d.model.now;
         let next_timer = d.model.next_timer();
         let delivery = d.model.delivery(ev);
         let n_ios = d.h.ios.len();
         let e = match ev {
             Ev::ReplyRest => {
-                let rest = d.partial_rest.take().expect("partial pending");
+                let rest = d.model.partial_rest.clone().expect("partial pending");
                 d.h.io().expect("io").deliver(&rest);
-                d.model.apply_rest(&rest)
+                d.model.apply(ev)
             }
             _ => {
                 match ev {
@@ -172,10 +168,7 @@ pub fn run_path(cfg: &SmCfg, events: &[Ev]) -> PathResult {
                     Ev::ReplyOk | Ev::ReplyException | Ev::ReplyBad | Ev::ReplyStale(_) | Ev::BadHeader => {
                         d.h.io().expect("io").deliver(delivery.as_ref().unwrap());
                     }
-                    Ev::ReplyPartial(n) => {
-                        // the model's delivery() is the first n bytes; keep the rest for later
-                        let full = d.model.delivery(&Ev::ReplyOk).unwrap();
-                        d.partial_rest = Some(full[*n..].to_vec());
+                    Ev::ReplyPartial(_) => {
                         d.h.io().expect("io").deliver(delivery.as_ref().unwrap());
                     }
                     Ev::ReadError => d.h.io().expect("io").read_error(std::io::ErrorKind::ConnectionReset),
@@ -621,7 +614,7 @@ pub fn unused(_: Values) {}
 
 fn c11_extra(m: &ClientModel) -> Vec<Ev> {
     let mut v = vec![];
-    if matches!(m.phase, Phase::InFlight { .. } | Phase::Idle) && m.rxbuf.is_empty() {
+    if matches!(m.phase, Phase::InFlight { .. } | Phase::Idle) && m.partial_rest.is_none() {
         // stale by 1, 2, 32768; "future" by 1 and 2 (= stale by 65535 / 65534)
         for back in [1u16, 2, 0x8000, 0xFFFF, 0xFFFE] {
             // while idle a frame carrying the *next* id must not be buffered before its request
